@@ -47,15 +47,15 @@ pub uninterp spec fn der_ts_credentials(domain: Seq<u8>, user: Seq<u8>, password
 pub uninterp spec fn ts_first_nego_token(der: Seq<u8>) -> Option<Seq<u8>>;
 pub uninterp spec fn ts_pub_key_auth(der: Seq<u8>) -> Option<Seq<u8>>;
 """, mod="cssp", name="cssp_der_specs"))
-DER_WHY = "ASN.1 DER through the yasna crate and src/nla/asn1.rs: external encoder/decoder, assumed to implement the MS-CSSP structures"
-A(Stub(CSSP, "create_ts_request", mod="cssp", why=DER_WHY, ensures=["r@ == der_ts_request(nego@)"]))
-A(Stub(CSSP, "read_ts_server_challenge", mod="cssp", why=DER_WHY, ensures=["r is Ok ==> ts_first_nego_token(stream@) == Some(r->Ok_0@)"]))
-A(Stub(CSSP, "create_ts_authenticate", mod="cssp", why=DER_WHY, ensures=["r@ == der_ts_authenticate(nego@, pub_key_auth@)"]))
-A(Stub(CSSP, "read_public_certificate", mod="cssp", why="x509-parser crate",
+DER_WHY = "real body verified in unit csspder (post-parse logic, totality); DER itself (yasna crate, src/nla/asn1.rs) is the abstract der_decode / der_encode of prelude/asn1_cssp.rs, assumed to implement the MS-CSSP structures"
+A(Stub(CSSP, "create_ts_request", mod="cssp", verified_in="csspder", why=DER_WHY, ensures=["r@ == der_ts_request(nego@)"]))
+A(Stub(CSSP, "read_ts_server_challenge", mod="cssp", verified_in="csspder", why=DER_WHY, ensures=["r is Ok ==> ts_first_nego_token(stream@) == Some(r->Ok_0@)"]))
+A(Stub(CSSP, "create_ts_authenticate", mod="cssp", verified_in="csspder", why=DER_WHY, ensures=["r@ == der_ts_authenticate(nego@, pub_key_auth@)"]))
+A(Stub(CSSP, "read_public_certificate", mod="cssp", verified_in="csspder", why="real body verified in unit csspder; x509-parser crate is the stand-in parse_x509_der (may fail)",
        ensures=["r is Ok ==> der_cert_key(stream@) == Some(r->Ok_0.tbs_certificate.subject_pki.subject_public_key.data@)"]))
-A(Stub(CSSP, "read_ts_validate", mod="cssp", why=DER_WHY, ensures=["r is Ok ==> ts_pub_key_auth(request@) == Some(r->Ok_0@)"]))
-A(Stub(CSSP, "create_ts_credentials", mod="cssp", why=DER_WHY, ensures=["r@ == der_ts_credentials(domain@, user@, password@)"]))
-A(Stub(CSSP, "create_ts_authinfo", mod="cssp", why=DER_WHY, ensures=["r@ == der_ts_authinfo(auth_info@)"]))
+A(Stub(CSSP, "read_ts_validate", mod="cssp", verified_in="csspder", why=DER_WHY, ensures=["r is Ok ==> ts_pub_key_auth(request@) == Some(r->Ok_0@)"]))
+A(Stub(CSSP, "create_ts_credentials", mod="cssp", verified_in="csspder", why=DER_WHY, ensures=["r@ == der_ts_credentials(domain@, user@, password@)"]))
+A(Stub(CSSP, "create_ts_authinfo", mod="cssp", verified_in="csspder", why=DER_WHY, ensures=["r@ == der_ts_authinfo(auth_info@)"]))
 
 KEY = "certificate.tbs_certificate.subject_pki.subject_public_key.data@"
 EMPTY_OR = lambda v, f: "%s@ == (if restricted_admin_mode { Seq::<u8>::empty() } else { authentication_protocol.%s() })" % (v, f)
